@@ -95,11 +95,11 @@ def valid_gn(rng, s, findings_ok=False):
         op = GN(g, c, g, g, eps)
     else:
         op = GN(g, c, c, c, eps)
-    if findings_ok or s >= 21 or g == c:
+    if True:
         r = rng.random()
         if r < 0.15:
             op["xVis"] = "s"
-        elif r < 0.25 and (findings_ok or s >= 21):
+        elif r < 0.25:
             op["xVis"] = "m"
         r = rng.random()
         if r < 0.12:
@@ -136,9 +136,13 @@ def gen_consistent(rng, s, shape):
     elif shape == "gn":
         nodes = [node(valid_gn(rng, s), v=vers()), node(P("Neg"))]
     elif shape == "sub":
-        k = rng.choice([1, 2])
-        bodies = [[leaf(rand_op(rng, s), v=vers()) for _ in range(k)] for _ in range(2)]
-        nodes = [node(rand_op(rng, s)), node(P("If"), bodies=bodies), node(rand_op(rng, s))]
+        def body(depth):
+            out = [leaf(rand_op(rng, s), v=vers()) for _ in range(rng.choice([1, 2]))]
+            if depth > 0 and rng.random() < 0.5:
+                out.insert(rng.randrange(len(out) + 1), node(P("If"), v=vers(), bodies=[body(depth - 1), body(depth - 1)]))
+            return out
+
+        nodes = [node(rand_op(rng, s)), node(P("If"), bodies=[body(2), body(2)]), node(rand_op(rng, s))]
     elif shape == "func":
         fn = [node(rand_op(rng, s)) for _ in range(rng.choice([1, 2]))]
         if rng.random() < 0.3:
@@ -162,10 +166,9 @@ def gen_consistent(rng, s, shape):
 
 def no_axis_input(nodes):
     """Inside a function the DFT axis input would be a function parameter (not a visible constant)."""
-    for n in nodes:
-        for m in [n] + [l for b in n.get("bodies", []) for l in b]:
-            if m["op"]["k"] == "DFT":
-                m["op"]["axisIn"] = None
+    for m in L.iter_nodes(nodes):
+        if m["op"]["k"] == "DFT":
+            m["op"]["axisIn"] = None
 
 
 SHAPES = ["plain", "gs", "dft", "gn", "sub", "func", "mix", "empty"]
@@ -205,9 +208,15 @@ def gen_adversarial(rng):
     def anode(allow_body=True):
         n = node(aop(), d=0 if rng.random() < 0.1 else 1, v=vv(), ref=1 if rng.random() < 0.07 else 0)
         if allow_body and rng.random() < 0.25:
-            n = node(P("If"), v=vv(), ref=1 if rng.random() < 0.05 else 0,
-                     bodies=[[leaf(aop(), d=0 if rng.random() < 0.1 else 1, v=vv(), ref=1 if rng.random() < 0.1 else 0)
-                              for _ in range(rng.choice([1, 2]))] for _ in range(2)])
+            def abody(depth):
+                out = [leaf(aop(), d=0 if rng.random() < 0.1 else 1, v=vv(), ref=1 if rng.random() < 0.1 else 0)
+                       for _ in range(rng.choice([1, 2]))]
+                if depth > 0 and rng.random() < 0.4:
+                    out.append(node(P("If"), v=vv(), ref=1 if rng.random() < 0.05 else 0,
+                                    bodies=[abody(depth - 1), abody(depth - 1)]))
+                return out
+
+            n = node(P("If"), v=vv(), ref=1 if rng.random() < 0.05 else 0, bodies=[abody(2), abody(2)])
         return n
 
     nodes = [anode() for _ in range(rng.randint(0, 4))]
@@ -240,12 +249,11 @@ def gen_adversarial(rng):
             decl, ai = (None, s) if rng.random() < 0.5 else (s, s)
     # a DFT read at opset <= 19 takes its axis as an attribute: an `axis` input there would be dropped by the
     # rewrite and its initializer removed by the clean-up passes (A-ir), which the model does not track
-    for n in nodes + [m for f in funcs for m in f["nodes"]]:
-        for m in [n] + [l for b in n.get("bodies", []) for l in b]:
-            # (a proto drops the stamps, so either the stamp or a declared opset may be the one that counts)
-            cands = [x for x in (m["v"], decl, ai) + tuple(f["decl"] for f in funcs) if x is not None]
-            if m["op"]["k"] == "DFT" and m["op"]["axisIn"] is not None and cands and min(cands) <= 19:
-                m["op"]["axis"], m["op"]["axisIn"] = m["op"]["axisIn"], None
+    for m in L.iter_nodes(nodes + [m for f in funcs for m in f["nodes"]]):
+        # (a proto drops the stamps, so either the stamp or a declared opset may be the one that counts)
+        cands = [x for x in (m["v"], decl, ai) + tuple(f["decl"] for f in funcs) if x is not None]
+        if m["op"]["k"] == "DFT" and m["op"]["axisIn"] is not None and cands and min(cands) <= 19:
+            m["op"]["axis"], m["op"]["axisIn"] = m["op"]["axisIn"], None
     return {"decl": decl, "ai": ai, "nodes": nodes, "funcs": funcs, "extra_inits": rng.choice([0, 0, 1, 3]),
             "entry": entry, "fb": rng.choice(["none", "yes", "no"]),
             "target": rng.choice([17, 18, 19, 20, 21, 22, 24, 25, 26]), "adversarial": True}
@@ -381,10 +389,9 @@ def hide_function_shapes(case: dict) -> dict:
     """Case as the converter sees it when functions are visited in place (native entry)."""
     c = copy.deepcopy(case)
     for f in c["funcs"]:
-        for n in f["nodes"]:
-            for m in [n] + [l for b in n.get("bodies", []) for l in b]:
-                if m["op"]["k"] == "GN":
-                    m["op"].update(xVis="m", sVis="m", bVis="m")
+        for m in L.iter_nodes(f["nodes"]):
+            if m["op"]["k"] == "GN":
+                m["op"].update(xVis="m", sVis="m", bVis="m")
     return c
 
 
@@ -464,8 +471,7 @@ def all_case_nodes(case):
                 continue
             out.append(n)
             for b in n.get("bodies", []):
-                for l in b:
-                    out.append(l)
+                rec(b)
 
     rec(case["nodes"])
     for _ in range(case.get("extra_inits", 0)):
@@ -490,7 +496,16 @@ def gn_scale_len_after(n_ir):
         if p is not None and p.op_type == "Expand":
             base = length(p.inputs[0])
             shp = L._const_of(p.inputs[1])
-            if base is None or shp is None:
+            if shp is None:
+                # run-time ratio: Expand(·, Concat([1], Div(Shape(x,1,2), Shape(value))))
+                cc = p.inputs[1].producer()
+                dv = cc.inputs[1].producer() if cc is not None and cc.op_type == "Concat" and len(cc.inputs) == 2 else None
+                if (dv is not None and dv.op_type == "Div" and all(i.producer() is not None and i.producer().op_type == "Shape" for i in dv.inputs)
+                        and dv.inputs[1].producer().inputs[0] is p.inputs[0].producer().inputs[0]
+                        and dv.inputs[0].producer().inputs[0] is n_ir.inputs[0]):
+                    return ("C/len", base)
+                return None
+            if base is None:
                 return None
             return base * int(np.prod(shp))
         if v.shape is not None and len(v.shape) == 1 and isinstance(v.shape[0], int):
@@ -555,7 +570,7 @@ def judge(case, real) -> list[tuple[str, str]]:
         # the proto's own declaration decides the effective version of its nodes
         after = [(o, decl_after, tok, n) for (o, _v, tok, n) in after]
     principal = [a for a in after if a[0] not in ("Constant", "Reshape", "Expand") or a[2].startswith("P:Constant") is False and a[0] == "Constant" and False]
-    principal = [a for a in after if not (a[0] in ("Reshape", "Expand") or a[2].startswith("K:"))]
+    principal = [a for a in after if not (a[0] in ("Reshape", "Expand", "Shape", "Div", "Concat") or a[2].startswith("K:"))]
     # signature and initializers
     bp, ap = real["before_proto"], real["after_proto"]
     if ap is not None:
@@ -570,7 +585,7 @@ def judge(case, real) -> list[tuple[str, str]]:
     if ap is not None and real["err"] == "none" and not (real["capi_called"] and real["capi_ok"]):
         dup = duplicate_names(ap.graph)
         if dup:
-            problems.append(("C10-SUBGRAPH-SSA" if pred_subgraph_ssa(case) else "",
+            problems.append(("",
                              f"converted model is not in SSA form: {sorted(dup)[:3]} defined more than once (graph + subgraphs)"))
     if real["capi_called"] and real["capi_ok"]:
         if decl_after != t:
@@ -617,6 +632,9 @@ def judge(case, real) -> list[tuple[str, str]]:
                 problems.append((cls, f"GroupNormalization epsilon {eps_b} -> {eps_a}"))
             per_group_before = s <= 20
             slen_after = gn_scale_len_after(n)
+            if isinstance(slen_after, tuple):  # len * (C / len) with the run-time C of x and run-time len of the value
+                base = slen_after[1] if slen_after[1] is not None else op["sLen"]
+                slen_after = base * (op["c"] // base) if base else None
             if slen_after is None:
                 slen_after = op["sLen"]  # scale untouched (graph input): its run-time length is the case's
             want = op["c"] if t >= 21 else op["g"]
@@ -633,19 +651,9 @@ def crosses(s, t, step):
 
 
 def finding_class(op, s, t) -> str:
-    """The open finding whose predicate contains this (node, source, target), or ''."""
-    if t > 25 or t < 18:
-        return ""
-    if op["k"] == "GN" and crosses(s, t, 20):
-        if not (op["hasS"] and op["hasB"]) or op["xVis"] == "m":
-            return "D13a"
-        if op["xVis"] == "k" and op["sVis"] == "k" and op["bVis"] == "k" and op["g"] is None:
-            return "D13a"
-        needs = op["g"] is not None and op["g"] != op["c"] and op["sLen"] == op["g"]
-        hidden = op["xVis"] == "s" or op["sVis"] in "ms" or op["bVis"] in "ms"
-        if needs and hidden:
-            return "D13b"
-    # C10-DFT-AXIS (765f1d4) and C10-GN-EPS (71fb858) are fixed: no region is carved out for them any more
+    """The open finding whose predicate contains this (node, source, target), or ''.
+    All C10 findings are fixed (D9 4aa0d5c, C10-DFT-AXIS 765f1d4, C10-GN-EPS 71fb858, D13a/b 090a933,
+    C10-SUBGRAPH-SSA 40eff54): no region is carved out any more."""
     return ""
 
 
@@ -656,52 +664,52 @@ def creates_values(op, s, t) -> bool:
     if op["k"] == "DFT":
         return crosses(s, t, 19)  # since 765f1d4 the adapter always rewrites (axis default materialised)
     if op["k"] == "GN":
-        return (crosses(s, t, 20) and op["hasS"] and op["hasB"] and op["xVis"] == "k" and op["sVis"] == "k"
-                and op["bVis"] == "k" and op["g"] is not None and op["g"] != op["c"] and op["g"] == op["sLen"] == op["bLen"])
+        if not (crosses(s, t, 20) and op["hasS"] and op["hasB"] and op["g"] is not None):
+            return False
+        static = op["xVis"] == "k" and op["sVis"] == "k" and op["bVis"] == "k"
+        return (not static) or (op["g"] != op["c"] and op["g"] == op["sLen"] == op["bLen"])
     return False
 
 
 def pred_subgraph_ssa(case) -> bool:
-    """C10-SUBGRAPH-SSA: a value-creating rewrite inside a subgraph of node i and another one in the
-    enclosing graph at a later node: both define val_0 and NameFixPass leaves the clash."""
+    """C10-SUBGRAPH-SSA: in some graph (at any nesting level) a value-creating rewrite happens inside a
+    subgraph (at any depth) of node i and another one at a later node of that graph: both define val_0 and
+    NameFixPass leaves the clash."""
     if case["decl"] is None:
         return False
     s, t = case["decl"], case["target"]
 
-    def scan(nodes):
-        seen_inner = False
+    def expand(nodes):
+        out = []
         for n in nodes:
             if n["op"]["k"] == "CALL":
-                if case["entry"] != "native" and scan_inl(case["funcs"][n["op"]["f"]]["nodes"], seen_inner):
-                    return True
                 if case["entry"] != "native":
-                    seen_inner = seen_inner or inner_of(case["funcs"][n["op"]["f"]]["nodes"])
+                    out += case["funcs"][n["op"]["f"]]["nodes"]
                 continue
-            if seen_inner and n["d"] == 1 and creates_values(n["op"], s, t):
-                return True
-            if any(l["d"] == 1 and creates_values(l["op"], s, t) for b in n.get("bodies", []) for l in b):
-                seen_inner = True
-        return False
+            out.append(n)
+        return out
 
-    def inner_of(nodes):
-        return any(l["d"] == 1 and creates_values(l["op"], s, t) for n in nodes for b in n.get("bodies", []) for l in b)
+    def creating_inside(n):
+        return any(m["d"] == 1 and creates_values(m["op"], s, t) for b in n.get("bodies", []) for m in L.iter_nodes(b))
 
-    def scan_inl(nodes, seen_inner):
+    def scan(nodes):
+        nodes = expand(nodes)
+        seen_inner = False
         for n in nodes:
             if seen_inner and n["d"] == 1 and creates_values(n["op"], s, t):
                 return True
-            if any(l["d"] == 1 and creates_values(l["op"], s, t) for b in n.get("bodies", []) for l in b):
+            if n["d"] == 1 and creating_inside(n):
                 seen_inner = True
-        return False
+        return any(scan(b) for n in nodes for b in n.get("bodies", []))
 
-    return scan(case["nodes"])
+    if scan(case["nodes"]):
+        return True
+    return case["entry"] == "native" and any(scan(f["nodes"]) for f in case["funcs"])
 
 
 def case_in_findings(case) -> bool:
     if case["entry"] == "native" or case["decl"] is None:
         return False
-    if pred_subgraph_ssa(case):
-        return True
     return any(finding_class(n["op"], case["decl"], case["target"]) for n in all_case_nodes(case)
                if n["op"]["k"] in ("GN", "DFT"))
 
@@ -764,10 +772,8 @@ def runnable(case) -> bool:
             pass
     if any(n["d"] == 0 and n["op"]["k"] != "CALL" for n in case["nodes"]):
         return False
-    for n in case["nodes"]:
-        for b in n.get("bodies", []):
-            if any(l["d"] == 0 for l in b):
-                return False
+    if any(m["d"] == 0 and m["op"]["k"] != "CALL" for m in L.iter_nodes(case["nodes"])):
+        return False
     return True
 
 
@@ -927,6 +933,8 @@ def check_cases(run, drv, cases, stats: Counter):
                 stats["gn_step_taken"] += 1
         if "{" in mobs:
             stats["with_subgraph"] += 1
+            depth = lambda ns: max([0] + [1 + max([depth(b) for b in n["bodies"]]) for n in ns if n.get("bodies")])  # noqa: E731
+            stats[f"subgraph_nesting_depth_{depth(c['nodes'] + [n for f in c['funcs'] for n in f['nodes']])}"] += 1
         if c["funcs"]:
             stats["with_functions"] += 1
         # property verdict only on self-consistent inputs through the public entry points
@@ -963,7 +971,8 @@ def main(run: core.Run) -> None:
         "A-op: meaning of GridSample modes, DFT axis default (attribute default 1 up to opset 19, input default -2 from 20) "
         "and GroupNormalization scale/bias layout (per group up to opset 20, per channel from 21) as in the ONNX operator "
         "specification; validated numerically on onnxruntime for the witnesses and a sample of the cases",
-        "subgraph nesting depth 1 and call depth 1 are modelled; GroupNormalization with num_groups = 0 or rank(x) < 2 "
+        "subgraphs of every nesting depth are modelled (the driver is instantiated at depth 4, generators nest up to 3); "
+        "call depth 1; GroupNormalization with num_groups = 0 or rank(x) < 2 "
         "(Python ZeroDivisionError / IndexError inside the adapter) is outside the model and not generated",
     ]
     audit = run.prove(PROP_MODULES)
@@ -1054,9 +1063,6 @@ def main(run: core.Run) -> None:
             continue
         stats["numeric_compared"] += 1
         if d is None or d > 1e-3:
-            if pred_subgraph_ssa(c) and "SSA" in why and "C10-SUBGRAPH-SSA" in {f["id"] for f in run.open_findings()}:
-                stats["known_C10-SUBGRAPH-SSA"] += 1
-                continue
             numeric_fail.append((c, f"onnxruntime before/after: {why or d}"))
         else:
             try:
@@ -1112,7 +1118,8 @@ def main(run: core.Run) -> None:
 
     needed = ["branch_early-exit", "branch_native-nofallback", "branch_native-supported", "branch_capi-ok",
               "branch_capi-fail", "branch_native-direct", "branch_inline-error", "err_VersionConverterError",
-              "err_ValueError", "with_subgraph", "with_functions", "op_GN", "op_DFT", "op_GS"]
+              "err_ValueError", "with_subgraph", "with_functions", "op_GN", "op_DFT", "op_GS",
+              "subgraph_nesting_depth_2", "subgraph_nesting_depth_3"]
     missing = [k for k in needed if stats[k] == 0]
     if missing:
         raise core.Infra(f"generator degenerated: never produced {missing}")
